@@ -132,7 +132,16 @@ func c09(run *core.Run, replay string) {
 	}
 	core.ParallelDo(len(cases), 0, func(i int) {
 		c := cases[i]
-		k, d, ok := runCutCase(c)
+		if core.Hangs() >= 3 {
+			return
+		}
+		g, returned := guarded(func() kd { k, d, ok := runCutCase(c); return kd{k, d, ok} })
+		if !returned {
+			run.Eval(1)
+			run.Violate("C09 hang recipe="+c.R.Name, fmt.Sprintf("decoding the %d-byte prefix never returned (60 s, then 180 s)", c.Cut), c)
+			return
+		}
+		k, d, ok := g.k, g.d, g.ok
 		if !ok {
 			return
 		}
